@@ -134,11 +134,13 @@ func init() {
 				Bound: "one document of depth <= 2 (quick) / 3 (thorough): maps over {a,b} with $output true/false/absent, lists <= 2 with a marker entry true/false/absent at front or back; distinct concrete leaves"},
 			{Pkg: "bkl", Func: "HarnessC11_stream", Tiers: "qt", Covers: []string{"out.one", "out.multi", "out.none"},
 				Bound: "two documents (depth <= 2 and <= 1), whole documents may be hidden"},
+			{Pkg: "bkl", Func: "HarnessC11_spine", Tiers: "qt", Covers: []string{"out.one", "out.multi", "out.none"},
+				Bound: "a chain of four nested containers, each a map or a list with marker true/false/none and a sibling leaf (6^4 shapes): nested selections inside hidden subtrees and vice versa"},
 			{Pkg: "bkl", Func: "HarnessC11_symleaf", Tiers: "qt", Covers: []string{"out.one", "out.multi"},
 				Bound: "symbolic-kind scalar leaves: two documents of depth <= 1 (quick); one document of depth <= 2 (thorough)"},
 		},
 		Assume:  pipeAssume,
-		Outside: "depth > 3; non-boolean marker values; list entries that are exactly {$output: b} (by construction a list marker, not a marked empty map); known finding C11-R1",
+		Outside: "depth > 3; non-boolean marker values; list entries that are exactly {$output: b} (by construction a list marker, not a marked empty map)",
 	})
 
 	reg(propSpec{
@@ -236,7 +238,7 @@ func init() {
 		ID: "C09",
 		Harnesses: []harnessSpec{
 			{Pkg: "bkl", Func: "HarnessC09_order", Tiers: "qt", Order: true, Covers: []string{"order.output", "order.error"},
-				Bound: "8 input families (3-key maps with nulls, 4 $output selections, 3 named $repeat counts, flags/values transforms, layering with $delete and additions, $merge with overlapping keys, interpolated/$env keys, several $required); leaves symbolic-kind scalars; one (quick) / two (thorough) `range`-over-map instances per evaluation leave insertion order, over all permutations and with inserted keys visited or not; every path compared with a canonical reference run"},
+				Bound: "8 input families (3-key maps with nulls, 4 $output selections, 3 named $repeat counts, flags/values transforms, layering with $delete and additions, $merge with overlapping keys, interpolated/$env keys of which two collide after evaluation, several $required); leaves symbolic-kind scalars; one (quick) / two (thorough) `range`-over-map instances per evaluation leave insertion order, over all permutations and with inserted keys visited or not; every path compared with a canonical reference run"},
 		},
 		Assume: append([]string{
 			"map iteration: any order is possible at each range; exploration is budgeted to 1 (quick) / 2 (thorough) permuted range instances per evaluation - which instances is itself explored",
